@@ -288,6 +288,13 @@ func (n *normalizer) run() map[string]normFile {
 				continue
 			}
 			for _, d := range file.Decls {
+				if gd, ok := d.(*ast.GenDecl); ok && gd.Tok == token.VAR {
+					if n.rewriteVarDecl(pkg, file, gd) {
+						n.changed[file] = true
+						progress = true
+					}
+					continue
+				}
 				fd, ok := d.(*ast.FuncDecl)
 				if !ok || fd.Body == nil {
 					continue
